@@ -11,7 +11,8 @@ EXPLANATION = (
     "(R10c) removing a node removes its alias first (remove_id passes aliases.key(id) into remove_node, which removes it).")
 DECIDED = ["R10a both directions of the alias map are updated together (MUST)",
            "R10b only non-empty aliases, only for nodes (DOM, cut-set over guards incl. closures)",
-           "R10c node removal removes its alias (MUST + value flow)"]
+           "R10c node removal removes its alias (MUST + value flow)",
+           "R13f undo commands in mutation order (shared with C13)"]
 UNDECIDED = ["contents of the alias map over histories (needs execution)"]
 
 IM = "agdb::collections::indexed_map::IndexedMapImpl::"
